@@ -175,6 +175,12 @@ class FakeSocket(_Conn):
     def setblocking(self, flag):
         pass
 
+    def bind(self, addr):
+        pass
+
+    def connect(self, addr):
+        pass
+
     def settimeout(self, t):
         self.timeout = t
 
@@ -203,6 +209,11 @@ class FakeSocket(_Conn):
         if err is not None:
             raise err
         self._pump()
+        if getattr(self, 'blocking_recv', False) and not self.rx:
+            # a socket that is read without select (the TLS client): recv blocks until data, end of stream or the socket time-out
+            if not self.wait_readable(self.timeout):
+                raise _realsocket.timeout('timed out')
+            self._pump()
         d, self.rx = self.rx[:n], self.rx[n:]
         w.log.append(('recv', w.current(), d))
         return d
@@ -387,7 +398,7 @@ class World(object):
 
             @staticmethod
             def socket(family=None, kind=None):
-                return world._new_socket('udp')
+                return world._new_socket('tcp' if kind == _realsocket.SOCK_STREAM else 'udp')
 
             @staticmethod
             def inet_pton(family, address):
@@ -439,6 +450,14 @@ def serial_kwargs(world, opts):
     if opts.get('echo'):
         kw['handle_local_echo'] = True
     return kw
+
+
+class FakeTlsContext(object):
+    """stands for an ssl.SSLContext: the 'wrapped' socket is the fake socket itself, read without select"""
+
+    def wrap_socket(self, sock, server_side=False, server_hostname=None):
+        sock.blocking_recv = True
+        return sock
 
 
 # --------------------------------------------------------------------------------------- reference responder
